@@ -72,6 +72,8 @@ class Check:
             "reference_form": None if ref is None else str(ref),
             "config": config,
         }
+        if any(x["rule"] == rule and x["key"] == key for x in self.violations + self.known_hits):
+            return  # the same construct reached again (other dimension / scenario): reported once
         for k in self.known:
             if k.get("status") == "known" and k.get("key") == key and k.get("rule", rule) == rule:
                 v["known"] = k
@@ -213,6 +215,27 @@ def etdrk_stub(interp, args, kwargs):
     return None
 
 
+def etdrk_symbolic_stub(interp, args, kwargs):
+    """constructor stub that leaves a *usable* integrator: every coefficient array is a fresh symbol of the
+    linear operator's shape (the real coefficient formulas are C02's subject)"""
+    obj = args[0]
+    etdrk_stub(interp, args, kwargs)
+    lin = args[2]
+    n = int(obj.cls.name[-1])
+    obj.f["_nonlinear_fun"] = args[3] if len(args) > 3 else kwargs.get("nonlinear_fun")
+    if getattr(interp.ctx, "opaque_nonlinear", False) and obj.f["_nonlinear_fun"] is not None:
+        # the stage recursion applied to a real nonlinear term blows up polynomially; the term itself is
+        # interpreted separately on a symbolic state
+        obj.f["real_nonlinear_fun"] = obj.f["_nonlinear_fun"]
+        obj.f["_nonlinear_fun"] = UFun("Nl")
+    names = {0: [], 1: ["_coef_1"], 2: ["_coef_1", "_coef_2"], 3: ["_half_exp_term"] + [f"_coef_{i}" for i in range(1, 6)], 4: ["_half_exp_term"] + [f"_coef_{i}" for i in range(1, 7)]}[n]
+    for nm in ["_exp_term"] + names:
+        obj.f[nm] = Tens(lin.shape, [Poly.atom(("s", f"{nm}_{j}")) for j in range(len(lin.data))])
+        for j in range(len(lin.data)):
+            alg.COMPLEX_ATOMS.add(("s", f"{nm}_{j}"))
+    return None
+
+
 def generic_decide(cond, node, file, fn):
     """formula checks treat symbolic parameters as generic values: `param == constant` is False.
     (That such a Python-level branch exists at all is C06's business, not the formula checks'.)"""
@@ -235,7 +258,10 @@ def new_interp(repo, parity=0, stub_etdrk=True, decide=generic_decide, extra_par
         ctx.parity[a] = p
     ctx.decide = decide
     it = Interp(repo, ctx)
-    if stub_etdrk:
+    if stub_etdrk == "symbolic":
+        for n in range(0, 5):
+            ctx.stubs[f"exponax.etdrk._etdrk_{n}.ETDRK{n}.__init__"] = etdrk_symbolic_stub
+    elif stub_etdrk:
         for n in range(1 if stub_etdrk == "nonlinear" else 0, 5):
             ctx.stubs[f"exponax.etdrk._etdrk_{n}.ETDRK{n}.__init__"] = etdrk_stub
     return it
